@@ -492,3 +492,8 @@ def run(prog, rep, tier, snap):
     rep.rule("R08.11", "the wake-up time of an occurrence is its own second, all-day occurrences at the start of their day (shared with C08)", 1)
     rep.call(c08.r08_11, prog, rep)
 READY = True
+
+# texts brought up to date with the rules added in the last rounds
+LEVEL_TEXT = LEVEL_TEXT + ' Also: the occurrence that is armed is never before `now` (walk of callback plus unwinder with the last test results as ghost state); a restarted watcher has had its reschedule callback set anew on every path; the wake-up time of an instant by a value-fixed walk (all-day instants at the start of their day).'
+TECHNIQUE = (TECHNIQUE if isinstance(TECHNIQUE, str) else TECHNIQUE) + "; ghost-state walks; value-fixed walk of the daemon's time conversion"
+
